@@ -492,6 +492,13 @@ def correspond(ctx):
         for ln, r, e_ in zip(lines, res, exp):
             if r != e_ and r != 'bad-op':
                 dis.append(Disagreement('c16.model', 'model:canon', f'{ln}: real {e_} vs model {r}', {'line': ln}, False))
+    # object-history fuzzer (hist.py): "calling the module-level function with x_data is the same as calling the method on a fitter
+    # object" — also when that fitter object has been used before: every call of a history on one Baseline against the function
+    from . import hist
+    for spec, f in hist.campaign(ctx, ctx.np_rng(), 'fresh', 50 if ctx.thorough else 20, 0, fresh_via='function'):
+        dis.append(Disagreement('c16.fuzz', f'fuzz:{spec["steps"][-1]["method"]}',
+                                f'history on one Baseline: {hist.describe(spec)[:700]} — call {f[0] + 1} differs from the module-level function with x_data: {f[2]}',
+                                {'kind': 'fuzz', 'spec': spec}, True))
     return dis
 
 
@@ -504,6 +511,10 @@ def search(ctx, hints, lean_failed):
 def replay(ctx, data):
     # variants are regenerated from the method/variant label with a fixed seed
     r = data['replay']
+    if r.get('kind') == 'fuzz':
+        from . import hist
+        f = [x for x in hist.run(r['spec'], want=('fresh',), fresh_via='function') if x[1] == 'fresh']
+        return f'call {f[0][0] + 1}: {f[0][2]}' if f else None
     sub = type(ctx)(ctx.prop, 'quick', 0)
     sub.no_corpus = True
     sub.only_method = r.get('method')
